@@ -217,6 +217,44 @@ def run_consumer(u, out):
                 out['fails'].append({'sig': 'C15|consumer|value|x %s' % kn, 'case': case, 'detail': {'got': np.asarray(got).tolist(), 'expected': exp.tolist()}})
 
 
+def run_consumer_ridge(u, out):
+    """ridge functions f(x) = g(c.x) for g = tan, arctan, exp, log1p: every d-th order partial derivative divided by the multi-index
+    factorial is c^alpha g^(d)(c.x0) / alpha!  (g^(d) from mpmath) - up to d = 6 for N = 2 and with more than 8 rays for N = 3, 4"""
+    from algopy import UTPM
+    import algopy
+    from math import factorial
+    from .. import env
+    mp = env.load_mpmath()
+    gs = [('tan', algopy.tan, mp.tan), ('arctan', algopy.arctan, mp.atan), ('exp', algopy.exp, mp.exp), ('log1p', algopy.log1p, mp.log1p)]
+    c_all = np.array([0.5, -0.25, 0.75, 0.3])
+    x_all = np.array([0.4, 0.2, -0.3, 0.1])
+    for (N, d) in [(2, 3), (2, 5), (2, 6), (3, 3), (3, 4), (4, 3)]:
+        cvec_, x0 = c_all[:N], x_all[:N]
+        uu = float(cvec_.dot(x0))
+        J = np.atleast_2d(EI.generate_multi_indices(N, d))
+        for gn, g, gm in gs:
+            old = mp.mp.dps
+            mp.mp.dps = 60
+            try:
+                gd = float(mp.diff(gm, mp.mpf(uu), d))
+            finally:
+                mp.mp.dps = old
+            exp = np.array([gd * np.prod(cvec_ ** row) / np.prod([factorial(int(k)) for k in row]) for row in J])
+            case = {'kind': 'consumer_ridge', 'N': N, 'd': d, 'g': gn}
+            out['evals'] += 1
+            out['nontrivial'] += 1
+            try:
+                X = UTPM.init_tensor(d, x0.copy())
+                y = g(algopy.dot(cvec_.copy(), X))
+                got = np.asarray(UTPM.extract_tensor(N, y, as_full_matrix=False), dtype=float)
+            except Exception as ex:
+                out['fails'].append({'sig': 'C15|consumer ridge %s|raises' % gn, 'case': case, 'detail': {'error': str(ex)[:200]}})
+                continue
+            if got.shape != exp.shape or not np.all(np.abs(got - exp) <= 1e-8 * (np.abs(exp) + np.abs(exp).max())):
+                out['fails'].append({'sig': 'C15|consumer ridge %s|value|%s' % (gn, 'more than 8 rays' if len(J) > 8 else 'up to 8 rays'), 'case': case,
+                                     'detail': {'max_relative_error': float(np.max(np.abs(got - exp) / (np.abs(exp).max() + 1e-300)))}})
+
+
 def run_consumer_programs(u, out):
     """the "Hence" part on PROGRAMS: vectorised integer polynomial programs (constants of rank up to 3, products of
     polynomial operands, in-place updates; amc/props/c09.py) seeded with init_tensor(d, x) and read with extract_tensor
@@ -237,6 +275,11 @@ def run_unit(u):
     out = {'evals': 0, 'nontrivial': 0, 'fails': [], 'samples': [], 'maxima': {}, 'counters': {}}
     if u['kind'] == 'consumer':
         run_consumer(u, out)
+        run_consumer_ridge(u, out)
+        return out
+    if u['kind'] == 'consumer_ridge':
+        run_consumer_ridge(u, out)
+        out['fails'] = [f for f in out['fails'] if all(f['case'].get(k) == u.get(k) for k in ('N', 'd', 'g'))]
         return out
     if u['kind'] == 'consumer_programs':
         run_consumer_programs(u, out)
